@@ -1,5 +1,5 @@
 import build
-from specs.common import run, ASSUME_COMMON
+from specs.common import run, memcheck, ASSUME_COMMON
 
 # trace_id_ratio.cc is additionally compiled into the harness with UBSan's float-cast-overflow check
 # (not part of -fsanitize=undefined in gcc); the harness object is linked before libotel.a, so the
@@ -7,7 +7,9 @@ from specs.common import run, ASSUME_COMMON
 SPEC = {
     "runs": [run("e1-statement", "c12_sampling", "asan", 2500, 150000, need_lib=True,
                  sources=["harness/c12_sampling.cc", build.REPO + "/sdk/src/trace/samplers/trace_id_ratio.cc"],
-                 cxxflags=["-fsanitize=float-cast-overflow"])],
+                 cxxflags=["-fsanitize=float-cast-overflow"]),
+             memcheck("c12_sampling_plain", 200, 10000,
+                      sources=["harness/c12_sampling.cc", build.REPO + "/sdk/src/trace/samplers/trace_id_ratio.cc"])],
     "floors": {
         "quick": {"pairs_within_4ulp": 1000, "ids_near_threshold": 10000, "id_splits_a_ratio_pair": 10000,
                   "id_splits_a_pair_within_4ulp": 100, "checks_ratio_le0": 10000, "checks_ratio_ge1": 10000,
